@@ -57,7 +57,8 @@ pub fn check(case: &Case, obs: &mut Obs) -> Verdict {
     }
     let mut o = OptSpec::new(width);
     o.bw = false;
-    let want = textwrap::wrap(orig, o.build());
+    let built = o.build();
+    let want = if o.by_ref(orig) { textwrap::wrap(orig, &built) } else { textwrap::wrap(orig, o.build()) };
     obs.calls += 1;
     let got: Vec<&str> = s.split('\n').map(|l| l.trim_end_matches(' ')).collect();
     if got.len() != want.len() || got.iter().zip(want.iter()).any(|(a, b)| *a != b.as_ref()) {
